@@ -48,6 +48,8 @@ SCENARIOS = {
     "title-format-property": (["a", "b"], [], [("DirectedEdge", "a", "b"), ("UnDirectedEdge", "b", "b")], {}, "title-format-property"),
     "subclass-with-its-own-title": (["a", "b", "c"], [], [("DirectedEdge", "b", "a"), ("DirectedEdge", "a", "b"), ("UnDirectedEdge", "c", "a"), ("DirectedEdge", "a", "a")], {"a": "SymVert", "c": "SymVert"}, "subclass-title"),
     "title-format-with-empty-show-attrs": (["a", "b"], [], [("DirectedEdge", "a", "b")], {}, "title-format-empty-show-attrs"),
+    # the links themselves belong to a universe of their own (links are graph objects too); they still join two members of U
+    "links-in-another-universe": (["a", "b", "c"], [], [("DirectedEdge", "a", "b"), ("UnDirectedEdge", "b", "c"), ("DirectedEdge", "c", "c")], {}, "default"),
     "falsy-vertices": (["a", "b", "c"], [], [("DirectedEdge", "a", "b"), ("UnDirectedEdge", "c", "a"), ("DirectedEdge", "c", "c")], {"a": "FalsyV", "c": "FalsyV"}, "default"),
 }
 
@@ -158,6 +160,11 @@ def run(ctx):
                 l.name = f"L{i}"
                 L.append(l)
             U = h.new("Universe", "U", vertices=Seq([V[v] for v in members], "list"))
+            if name == "links-in-another-universe":
+                P = h.new("Universe", "P", vertices=Seq([L[0], L[2]], "list"))      # ... through the constructor
+                r_ = h.call(h.I.getattr(P, "add_vertex"), L[1])                      # ... and through add_vertex
+                if r_.kind != "return":
+                    raise Unknown(f"a link cannot join a universe: {r_!r}")
             opts = options(h, g, variant)
             h.settle()
             out = h.call(fn, U, opts)
